@@ -95,6 +95,7 @@ def run(rep):
     rep.rule("R05.DZ", "integer / and % have a non-zero divisor")
     rep.rule("R05.FC", "double -> integer conversions have a finite, in-range operand")
     rep.rule("R05.PRE", "callee preconditions hold at every internal call")
+    rep.rule("R05.OV", "32-bit integer products cannot overflow (inside a bounded index, bounded by a block size, or numerically small)")
     rep.rule("R05.S1", "extern prototype in the .pyx equals the C definition (count, order, types)")
     rep.rule("R05.S2", "every pointer argument is the data of an ndarray of the same element type, C-contiguous, not None")
     rep.rule("R05.S3", "buffer extent provided by shim + Python caller >= extent required by the kernel")
@@ -141,7 +142,7 @@ def run(rep):
             continue
         for o in sm.proved + sm.unproven:
             nobl += 1
-            rule = {"B": "R05.B", "DZ": "R05.DZ", "FC": "R05.FC", "PRE": "R05.PRE"}.get(o.kind, "R05.B")
+            rule = {"B": "R05.B", "DZ": "R05.DZ", "FC": "R05.FC", "PRE": "R05.PRE", "OV": "R05.OV"}.get(o.kind, "R05.B")
             cons = f"{o.txt}:{o.side}"
             if o.proved:
                 rep.proved(rule, fn["file"], fn["name"], cons, line=o.line)
